@@ -33,13 +33,18 @@ theorem IN_3D_fdf_row6 (i : IN_3D_fdf_In K)
     simp only [Derivation.leibniz_div, Derivation.leibniz, map_add, map_sub, hy, hnu, d1, d2, smul_eq_mul]; ring
   have hm : D (i.young / (2 * (1 + i.nu))) = 0 := by
     simp only [Derivation.leibniz_div, Derivation.leibniz, map_add, map_sub, hy, hnu, d1, d2, smul_eq_mul]; ring
-  simp only [gen_simp] at hmax hseq ⊢
-  generalize i.nu * i.young / ((1 + i.nu) * (1 - 2 * i.nu)) = l at hl hmax hseq ⊢
-  generalize i.young / (2 * (1 + i.nu)) = m at hm hmax hseq ⊢
+  obtain ⟨q, hq⟩ : ∃ q, IN_3D_fdf_fn0 c c3 fn i = q := ⟨_, rfl⟩
+  obtain ⟨w, hw⟩ : ∃ w, IN_3D_fdf_fn1 c c3 fn i = w := ⟨_, rfl⟩
+  rw [hq] at hseq
+  simp only [gen_simp, mul_zero, zero_mul, add_zero, zero_add, mul_one, one_mul, sub_zero, zero_sub, zero_div, neg_zero] at hmax hq hw ⊢
+  generalize i.nu * i.young / ((1 + i.nu) * (1 - 2 * i.nu)) = l at hl hmax hq hw ⊢
+  generalize i.young / (2 * (1 + i.nu)) = m at hm hmax hq hw ⊢
   simp only [hmax]
   simp only [Derivation.leibniz_div, Derivation.leibniz, map_add, map_sub, map_neg, map_zero, hsqrt, hpow, D_ofNat, d1, hl, hm, hth, hdt,
-    he0, he1, he2, he3, he4, he5, smul_eq_mul, mul_zero, zero_mul, add_zero, zero_add, sub_zero, zero_sub, zero_div, neg_zero]
-  trace_state
-  sorry
+    he0, he1, he2, he3, he4, he5, smul_eq_mul, mul_zero, zero_mul, add_zero, zero_add, mul_one, one_mul, sub_zero, zero_sub, zero_div, neg_zero]
+  simp only [hq] at hw ⊢
+  simp only [hw]
+  field_simp
+  ring1
 
 end TfelVerif.C43
